@@ -51,7 +51,8 @@ def native_run(crate, test_name, release, log):
     e["CARGO_ENCODED_RUSTFLAGS"] = "\x1f".join(flags)
     e["RUSTC"] = kh + "/bin/kani-compiler"
     e["CARGO_TERM_PROGRESS_WHEN"] = "never"
-    e["CARGO_TARGET_DIR"] = os.path.join(os.path.dirname(crate), "native_target")
+    # shared across replays (dependencies incl. /repo are built once; cargo serialises access)
+    e["CARGO_TARGET_DIR"] = os.path.join(core.WORK, "native-replay-target")
     cmd = [kh + "/toolchain/bin/cargo", "test", "--lib", "--target", "x86_64-unknown-linux-gnu", "-Zhost-config",
            "-Ztarget-applies-to-host", "--config=host.rustflags=[\"--cfg=kani_host\"]"]
     if release:
@@ -103,5 +104,4 @@ def replay_tests(d, crate, tests, harness_name):
         o["dev"] = native_run(crate, "gen::" + nm, False, log)
         o["release"] = native_run(crate, "gen::" + nm, True, log)
         outcomes.append(o)
-    shutil.rmtree(os.path.join(d, "native_target"), ignore_errors=True)
     return names, outcomes, log
